@@ -7,6 +7,7 @@ package main
 // document stayed readable until its time and was tombstoned (with a deletion event) within 3 s after.
 
 import (
+	"strings"
 	"encoding/json"
 	"errors"
 	"fmt"
@@ -36,6 +37,7 @@ type ttlOp struct {
 
 type ttlInput struct {
 	OnDisk bool    `json:"on_disk"`
+	Burst  int     `json:"burst,omitempty"` // before the history: so many rounds of simultaneous writes with ever earlier (far) deadlines
 	Ops    []ttlOp `json:"ops"`
 }
 
@@ -98,6 +100,89 @@ func execTtl(in ttlInput, scratch string) (Case, error) {
 	}
 	if err := startFeeds(); err != nil {
 		return c, err
+	}
+	if in.Burst > 0 {
+		// Writers on two handles and two collections set deadlines at the same moment, each earlier than every one
+		// before it (all of them hours away: none fires during the case).  Whichever of them reaches the expiry
+		// manager last, the timer must end up armed at or before the earliest deadline stored.
+		b2, err := rosmar.OpenBucket(url, name, rosmar.CreateOrOpen)
+		if err != nil {
+			return c, err
+		}
+		const writers = 6
+		base := uint32(time.Now().Unix()) + 40000
+		var cols []*rosmar.Collection
+		for g := 0; g < writers; g++ {
+			ds, err := []*rosmar.Bucket{b, b2}[g%2].NamedDataStore(dsName(ttlColls[(g/2)%2]))
+			if err != nil {
+				return c, err
+			}
+			cols = append(cols, ds.(*rosmar.Collection))
+		}
+		for round := 0; round < in.Burst && c.Fatal == ""; round++ {
+			var wg sync.WaitGroup
+			gate := make(chan struct{})
+			for g := 0; g < writers; g++ {
+				wg.Add(1)
+				go func(g int) {
+					defer wg.Done()
+					<-gate
+					_ = cols[g].SetRaw(fmt.Sprintf("burst%d", g), base-uint32(round*writers+g), nil, []byte("x"))
+				}(g)
+			}
+			close(gate)
+			wg.Wait()
+			earliest := base - uint32(round*writers+writers-1)
+			if armed := b.VerifNextExp(); armed == 0 || armed > earliest {
+				c.Fatal = fmt.Sprintf("after %d simultaneous writes the expiry timer is armed for %d although a document expires at %d", writers, armed, earliest)
+			}
+		}
+		// The same with the overlap made certain: one writer is held where it arms the timer (rosmar logs there; the
+		// logging callback is the client's), another one with an earlier deadline arrives meanwhile.
+		base -= uint32(in.Burst*writers + 10)
+		oldCb, oldLevel := rosmar.LoggingCallback, rosmar.GetLogLevel()
+		var held int32
+		parked := make(chan struct{}, 1)
+		release := make(chan struct{})
+		rosmar.LoggingCallback = func(level rosmar.LogLevel, f string, args ...any) {
+			if strings.HasPrefix(f, "_setNext(") && atomic.CompareAndSwapInt32(&held, 1, 2) {
+				parked <- struct{}{}
+				<-release
+			}
+		}
+		rosmar.SetLogLevel(rosmar.LevelDebug)
+		for round := 0; round < 3 && c.Fatal == ""; round++ {
+			dA, dB := base-uint32(2*round), base-uint32(2*round+1)
+			release = make(chan struct{})
+			atomic.StoreInt32(&held, 1)
+			doneA, doneB := make(chan struct{}), make(chan struct{})
+			go func() { _ = cols[0].SetRaw("burstA", dA, nil, []byte("x")); close(doneA) }()
+			select {
+			case <-parked:
+				go func() { _ = cols[1].SetRaw("burstB", dB, nil, []byte("x")); close(doneB) }()
+				time.Sleep(40 * time.Millisecond)
+				close(release)
+				<-doneB
+			case <-doneA:
+				// the first writer never armed the timer (nothing to hold)
+				close(release)
+			}
+			<-doneA
+			atomic.StoreInt32(&held, 0)
+			if armed := b.VerifNextExp(); armed == 0 || armed > dB && atomic.LoadInt32(&held) == 0 {
+				select {
+				case <-doneB:
+					c.Fatal = fmt.Sprintf("a writer arrived while another one was arming the expiry timer: the timer is armed for %d although a document expires at %d", armed, dB)
+				default:
+				}
+			}
+		}
+		rosmar.SetLogLevel(oldLevel)
+		rosmar.LoggingCallback = oldCb
+		b2.Close(ctxBg)
+		if c.Fatal != "" {
+			return c, nil
+		}
 	}
 	// align to the start of a wall-clock second so that deadlines are whole seconds ahead
 	for time.Now().Nanosecond() > 150_000_000 {
@@ -269,6 +354,9 @@ func execTtl(in ttlInput, scratch string) (Case, error) {
 
 func genTtl(r *rand.Rand) ttlInput {
 	in := ttlInput{OnDisk: r.Intn(2) == 0}
+	if r.Intn(3) == 0 {
+		in.Burst = 20 + r.Intn(40)
+	}
 	key := func() string { return pick(r, ttlKeys) }
 	cn := func() string { return pick(r, ttlColls) }
 	first := func() ttlOp {
